@@ -17,6 +17,8 @@ use lexical_core::{
 mod guard;
 #[path = "../comp.rs"]
 mod comp;
+#[path = "../sweep.rs"]
+mod sweep;
 use comp::op_pn;
 
 // ---------------------------------------------------------------------------------------
@@ -405,7 +407,10 @@ fn run_op(line: &str) -> String {
         "dpf" => by_float!(t[1], d_pf, facade, &t[2..]),
         "dwi" => by_int!(t[1], d_wi, facade, &t[2..]),
         "dwf" => by_float!(t[1], d_wf, facade, &t[2..]),
-        _ => comp::run_comp(op, &t[1..]),
+        _ => match sweep::run(op, &t[1..]) {
+            Some(r) => r,
+            None => comp::run_comp(op, &t[1..]),
+        },
     }
 }
 
